@@ -88,6 +88,12 @@ def type_of(v, reg=None):
     if type(v).__name__ == "SDictV":
         from .dicts import TDict
         return TDict()
+    if type(v).__name__ == "SArr":
+        from .arrays import TArr
+        return TArr(str(v.ndim) if isinstance(v.ndim, int) else "?", v.dtype)
+    if type(v).__name__ == "SArrList":
+        from .arrays import TArrList
+        return TArrList()
     return None
 
 
@@ -216,6 +222,9 @@ def eq(a, b, ctx):
         return a is b
     if isinstance(a, SOpaque) and isinstance(b, SOpaque):
         return a.t == b.t
+    if type(a).__name__ == "SArr" and type(b).__name__ == "SArr":
+        from .arrays import arr_eq
+        return arr_eq(a, b, ctx)
     if type(a).__name__ == "SDictV" or type(b).__name__ == "SDictV":
         from .dicts import TDict
         return TDict().unwrap(a, ctx) == TDict().unwrap(b, ctx)
